@@ -47,7 +47,7 @@ def frame_from(o):
     Ry = [[cth, 0, sth], [0, 1, 0], [-sth, 0, cth]]
     return matmul(Rz, Ry)
 
-def gen_align_case(rng, o, interface):
+def gen_align_case(rng, o, interface, ratio=None):
     """atoms with the extreme principal direction (largest variance; least for an interface) along the unit
     vector with spherical angles o"""
     F = frame_from(o)
@@ -55,9 +55,15 @@ def gen_align_case(rng, o, interface):
     atoms = []
     if not interface:
         n = rng.choice([4, 6, 10, 20, 40])
-        ratio = rng.choice([1.03, 1.1, 1.5, 3.0, 10.0])       # of standard deviations
+        symmetric = ratio is not None         # a cross of +/- points: the sample covariance is diagonal in the local frame,
+        if symmetric: n = 12                  # so the extreme direction is the nominal one up to the 0.001 A rounding
+        ratio = ratio or rng.choice([1.03, 1.1, 1.5, 3.0, 10.0])       # of standard deviations
+        cross = [(1, 0, 0), (-1, 0, 0), (0, 1, 0), (0, -1, 0), (0, 0, 1), (0, 0, -1)]
         for k in range(n):
             loc = [rng.uniform(-4, 4), rng.uniform(-4, 4) * rng.choice([1.0, 0.5]), rng.uniform(-4, 4) * ratio]
+            if symmetric:
+                e = cross[k % 6]; r = 2.0 + (k // 6)
+                loc = [e[0] * r, e[1] * r * 0.7, e[2] * r * ratio]
             p = [float(sum(F[i][j] * loc[j] for j in range(3))) + shift[i] for i in range(3)]
             chain = 'A' if k < n // 2 else 'B'
             atoms.append([k + 1, rng.choice(NAMES), rng.choice(RESN), chain, k // 3 + 1] + [round(x, 3) for x in p] + [1.0, 0.0])
@@ -127,11 +133,16 @@ def run_impl(pdb2sql, case):
             'eigh': eigh, 'angles': rec_ang, 'files': new_files}
 
 def requests(case, R):
-    if R['status'] != 'OK' or len(R['eigh']) != 1 or len(R['angles']) != 1:
+    if R['status'] != 'OK' or len(R['selpos']) < 2:
         return []
     table = [[i, [Fr(r[j]) for j in XYZ]] for i, r in enumerate(R['before'])]
-    _, u, v = R['eigh'][0]
-    vect, phi, theta = R['angles'][0]
+    if len(R['eigh']) == 1 and len(R['angles']) == 1:
+        _, u, v = R['eigh'][0]
+        vect, phi, theta = R['angles'][0]
+    else:
+        # the library did not go through one eigen-decomposition and one angle computation (e.g. it decided not to rotate):
+        # nothing to feed the model with (placeholders, the tie is reported as broken) — the specification is judged anyway
+        u, v, phi, theta = [0.0, 0.0, 1.0], [[1.0, 0.0, 0.0], [0.0, 1.0, 0.0], [0.0, 0.0, 1.0]], 0.0, 0.0
     cs = [Fr(math.cos(phi)), Fr(math.sin(phi)), Fr(math.cos(theta)), Fr(math.sin(theta))]
     axis = case['axis'] if case['kind'] == 'align' else {'xy': 'z', 'xz': 'y', 'yz': 'x'}[case['plane']]
     sel_before = [[Fr(R['before'][i][j]) for j in XYZ] for i in R['selpos']]
@@ -164,8 +175,10 @@ def judge(case, R, outs):
     else: feats.append('generic-orientation')
     feats.append('axis-' + (case['axis'] if case['kind'] == 'align' else case['plane']))
     if case['kind'] == 'align' and case['sel']: feats.append('sub-selection')
-    if len(R['selpos']) < 3:
-        return True, True, {}, feats, 'fewer_than_3_selected_atoms'       # no principal direction: outside the premise
+    if case.get('near_aligned'): feats.append('almost-aligned-already')
+    if len(R['selpos']) < 2:
+        return True, True, {}, feats, 'fewer_than_2_selected_atoms'       # no principal direction: outside the premise
+    if len(R['selpos']) <= 3: feats.append('selection-of-2-or-3-atoms')
     if R['status'] != 'OK':
         return False, True, {'impl': str(R['status'])}, feats, None
     before, after = R['before'], R['after']
@@ -173,8 +186,13 @@ def judge(case, R, outs):
     Y = np.array([[r[j] for j in XYZ] for r in after], dtype=float)
     S0 = X[R['selpos']]
     # premise of the property: well separated extreme principal direction of the selected atoms
-    w = np.linalg.eigvalsh(np.cov(S0.T)) if len(S0) >= 3 else None
-    if w is None or w[0] <= 0 or (w[2] / w[1] if case['kind'] == 'align' else w[1] / w[0]) < 1.05:
+    w = np.linalg.eigvalsh(np.cov(S0.T))
+    eps = 1e-9 * max(float(w[2]), 1e-300)
+    if case['kind'] == 'align':
+        separated = w[2] > eps and w[2] >= 1.05 * max(w[1], 0.0)          # two or three atoms: w[1] may be 0
+    else:
+        separated = w[1] > eps and w[1] >= 1.05 * max(w[0], 0.0)
+    if not separated:
         return True, True, {}, feats, 'gap_ratio_below_1.05'
     scale = max(1.0, float(abs(X).max()))
     spec_ok = True
@@ -212,6 +230,9 @@ def judge(case, R, outs):
         spec_ok = False; det['not_the_least_variance'] = [float(covs[k][k]), float(w1[0])]
     # ---- tie: model fed with the recorded oracle answers
     m = outs[0]
+    if len(R['eigh']) != 1 or len(R['angles']) != 1:
+        det['model'] = 'expected exactly one eigh call and one get_rotation_angle call: %d, %d' % (len(R['eigh']), len(R['angles']))
+        return spec_ok, False, det, feats, None
     model_ok = m[0] == 'OK' and close_pts(Y.tolist(), [dv(r[1]) for r in m[1]], TOL, scale)
     Cin, u, v = R['eigh'][0]
     vect, phi, theta = R['angles'][0]
@@ -293,6 +314,23 @@ def explore(ctx, tier, rng, search=False):
         cases.append(gen_align_case(rng, o, interface=(i % 4 == 3)))
         for _ in range(3):
             cases.append(gen_fn_case(rng, o))
+    # almost aligned already: the extreme direction within 0.03 - 0.5 degree of the target axis (but not on it)
+    def circ(t):
+        t = Fraction(t); return ((1 - t * t) / (1 + t * t), 2 * t / (1 + t * t))
+    for t in ([Fraction(1, 250), Fraction(1, 700), Fraction(1, 2000)] if not deep else [Fraction(1, k) for k in (120, 250, 400, 700, 1200, 2000, 4000)]):
+        c_, s_ = circ(t)
+        ph = circle_point(rng)
+        for o, ax in (((ph[0], ph[1], c_, s_), 'z'), ((c_, s_, Fraction(0), Fraction(1)), 'x'), ((s_, c_, Fraction(0), Fraction(1)), 'y')):
+            c = gen_align_case(rng, o, False, ratio=10.0); c['axis'] = ax; c['sel'] = {}; c['near_aligned'] = True; cases.append(c)
+    # selections of exactly two or three atoms (their largest-variance direction is perfectly well defined)
+    for o in ors[-3:] + ors[:1]:
+        for m in (2, 3):
+            c = gen_align_case(rng, o, False)
+            for r in c['atoms'][:m]:
+                r[1] = 'SG'
+            for r in c['atoms'][m:]:
+                if r[1] == 'SG': r[1] = 'CB'
+            c['sel'] = {'name': ['SG']}; cases.append(c)
     # every axis / plane at a generic orientation and at the north pole, always present
     for o in (ors[-1], ors[0]):
         for ax in 'xyz':
@@ -322,10 +360,6 @@ def explore(ctx, tier, rng, search=False):
             skip = None
         else:
             dist['atoms_%d' % (len(c['atoms']) // 10 * 10)] += 1
-            if R['status'] == 'OK' and b == a and len(R['selpos']) >= 3:
-                rep.mismatch('impl_vs_model', c, note='expected exactly one eigh call and one get_rotation_angle call',
-                             eigh=len(R['eigh']), angles=len(R['angles']))
-                continue
             spec_ok, model_ok, det, feats, skip = judge(c, R, outs[a:b])
         if skip:
             rep.skipped[skip] += 1
